@@ -453,8 +453,14 @@ Witness_LoopAfterRaise == ~(\E j \in 1..Len(log) : log[j].k \notin RaiseTasks /\
 Witness_ShutdownDropsDue == ~(act.name = "LChk" /\ lpc = "ended" /\ \E e \in q : e.k # 0 /\ e.at <= now)
 Witness_SubmitAfterFlag == ~(act.name = "LDispatch" /\ act.k = "submit" /\ shut)
 Witness_RefusedAfterShutdown == ~(act.k = "refused")
+\* Observation (not claimed as a defect): an entry taken from the queue before its time is put back - unless the clock
+\* passes its time between LGet and LDispatch (the thread was descheduled); an entry with an EARLIER time inserted in
+\* between is then submitted after it.  SOrder is stated so that it allows exactly this.
 Witness_Overtaken == ~(\E a, b \in 1..Len(log) : a < b /\ ~Less(log[a], log[b]))
 Witness_Again == ~(\E k \in AgainTasks : ran[k] >= 2)
+\* Observation: _scheduled_tasks is a set, so after schedule(k); schedule(k) the first submission removes k although one
+\* entry is still pending, and a following schedule_unique(k) queues a second pending entry.  No task of the driver is
+\* passed to both schedule() and schedule_unique(); UniqueNoDup / UniqueExact are claimed for tasks never passed to schedule().
 Witness_MixedDuplicate == ~(act.name = "ScheduleUnique" /\ act.k = "queued" /\ Cardinality(PendingOf(act.a)) >= 2)
 Witness_Joined == xpc # "done"
 =============================================================================
